@@ -99,7 +99,7 @@ pub use crate::decoding::sequence_section_decoder::{
 /// Encoder side serialisation helpers of `encoding::blocks::compressed`
 pub mod enc {
     use crate::encoding::blocks::verif_exports as x;
-    use std::vec::Vec;
+    use alloc::vec::Vec;
     pub fn literal_length(len: u32) -> (u8, u32, usize) {
         x::literal_length(len)
     }
@@ -242,10 +242,14 @@ pub fn fse_encode(
     let mut w = crate::bit_io::BitWriter::new();
     {
         let mut e = crate::fse::fse_encoder::FSEEncoder::new(table, &mut w);
+        #[cfg(feature = "fuzz_exports")]
+        if !interleaved {
+            e.encode(data);
+        }
+        #[cfg(not(feature = "fuzz_exports"))]
+        assert!(interleaved, "the single state encoder needs the fuzz_exports feature");
         if interleaved {
             e.encode_interleaved(data);
-        } else {
-            e.encode(data);
         }
     }
     w.dump()
